@@ -261,6 +261,7 @@ let () =
           | "prior" -> cmd_prior toks
           | "sens" -> cmd_sens toks
           | "sim" -> cmd_sim toks
+          | "lsim" -> Drv_zlin.cmd_lsim toks
           | "dispatch" -> cmd_dispatch toks
           | "delaydraw" -> cmd_delaydraw toks
           | "c15align" -> cmd_c15align toks
